@@ -1,0 +1,5 @@
+//go:build !verif && !windows
+
+package daemon
+
+func verifPause(point string) {}
